@@ -438,7 +438,8 @@ def coq_stmt(s, ids, stdlib):
     opt = lambda a: "None" if a is None else f"(Some {ids(a)})"  # noqa
     if s[0] == "from":
         return f"SFrom {std} {ids(s[1])} {glist([f'({ids(n)}, {opt(a)})' for n, a in s[2]])}"
-    return f"SImport {std} " + glist([f"({ids(n)}, {opt(a)}, {ids(n.split('.')[0])})" for n, a in s[1]])
+    return "SImport " + glist([f"({ids(n)}, {opt(a)}, {ids(n.split('.')[0])}, {gbool(n.split('.')[0] in stdlib)})"
+                               for n, a in s[1]])
 
 
 def stmts_strings(*lists):
@@ -597,3 +598,124 @@ def collect(results, files, blocks):
             for i in idx:
                 dis.append(labels[i])
     return dis
+
+
+# ---------------------------------------------------------------------------------------------
+# statement-rule cases
+
+def stmt_rule_cases(impl, lists_useds, stdlib):
+    """[(stmts, used)] -> (coq case strings, labels)"""
+    cs, labels = [], []
+    for stmts, used in lists_useds:
+        src = stmts_source(stmts, used)
+        for rule, rid, ordered in RULES:
+            out = impl.run(rule, src)
+            if isinstance(out, tuple):
+                labels.append((rule, "crash", src, out)); cs.append("(RSort, true, [], [], [SImport []])")
+                continue
+            try:
+                ostm = parse_stmts(out)
+            except SyntaxError:
+                labels.append((rule, "unparsable-output", src, out)); cs.append("(RSort, true, [], [], [SImport []])")
+                continue
+            ids = Ids(stmts_strings(stmts, ostm) | set(used))
+            enc = lambda l: glist([coq_stmt(s, ids, stdlib) for s in l])  # noqa
+            cs.append(f"({rid}, {gbool(ordered)}, {glist([ids(u) for u in used])}, {enc(stmts)}, {enc(ostm)})")
+            labels.append((rule, "case", src, out))
+    return cs, labels
+
+
+def small_stmt_lists(maxlen):
+    out = []
+    for n in range(1, maxlen + 1):
+        for combo in itertools.product(SMALL_STMTS, repeat=n):
+            out.append(list(combo))
+    return out
+
+
+def useds_for(stmts, rnd=None):
+    bound = sorted({b for s in stmts for b in stmt_bound(s)})
+    if rnd is None:
+        return [bound, bound[:1], bound[1:]] if len(bound) > 1 else [bound, []]
+    k = rnd.randint(0, len(bound))
+    return [sorted(rnd.sample(bound, k))]
+
+
+def stmt_case_files(wd, cs, labels, tag):
+    files, blocks = [], []
+    SH = 400
+    for k in range(0, len(cs), SH):
+        p = wd / f"stmts_{tag}_{k // SH}.v"
+        p.write_text(HEADER + "Definition cases : list (rule_id * bool * list name * list stmt * list stmt) := [\n "
+                     + ";\n ".join(cs[k:k + SH]) + "\n].\nEval vm_compute in (bad_idx stmts_case_ok cases).\n")
+        files.append(p)
+        blocks.append([labels[k:k + SH]])
+    return files, blocks
+
+
+# ---------------------------------------------------------------------------------------------
+# property oracle: execute before/after, identity of every referenced global
+
+SWEEP_RULES = ["fix_starred_imports", "fix_reimported_names", "remove_unused_imports", "fix_duplicate_imports",
+               "sort_imports", "move_imports_to_toplevel", "add_missing_imports", "format_code"]
+STAGES = ["add_missing_imports", "fix_starred_imports", "fix_reimported_names", "move_imports_to_toplevel",
+          "fix_duplicate_imports", "add_missing_imports", "remove_unused_imports", "sort_imports"]
+
+
+def sweep_source(body, used):
+    lines = [render_binding(b, "client_mod", k) for k, b in enumerate(body)]
+    lines.append("print(" + ", ".join(used) + ")")
+    return "\n".join(lines) + "\n"
+
+
+def loaded_names(src):
+    try:
+        return {n.id for n in ast.walk(ast.parse(src)) if isinstance(n, ast.Name) and isinstance(n.ctx, ast.Load)}
+    except SyntaxError:
+        return None
+
+
+def oracle_batch(impl, wd: Path, items, tag):
+    """items: [(tree, [(src, names, rules)])].  Runs every rule on every client inside its tree and executes
+    before/after.  Returns failure records {rule, tree, src, out, names, diff, before, after}."""
+    base = wd / "trees"
+    jobs, meta = [], []
+    for k, (tree, clients) in enumerate(items):
+        d = base / f"{tag}{k}"
+        write_tree(d, tree)
+        impl.enter(d)
+        cl = []
+        for src, names, rules in clients:
+            for rule in rules:
+                out = impl.run(rule, src)
+                if isinstance(out, tuple):
+                    meta.append((k, None, {"rule": rule, "tree": tree, "src": src, "out": None, "crash": out[1]}))
+                    continue
+                if out == src:
+                    continue
+                cl.append({"id": len(meta), "before": src, "after": out, "names": list(names), "calls": True})
+                meta.append((k, len(cl) - 1, {"rule": rule, "tree": tree, "src": src, "out": out, "names": list(names)}))
+        jobs.append({"dir": str(d), "modules": [], "pool": [], "clients": cl})
+    os.chdir(common.VERIF)
+    res = run_worker(jobs, base)
+    fails, n_exec = [], 0
+    for k, ci, rec in meta:
+        if ci is None:
+            fails.append(dict(rec, diff=["<crash>"]))
+            continue
+        r = res[k]["clients"][ci]
+        n_exec += 1
+        if r["before"]["exc"]:
+            continue   # the original client does not run: nothing to preserve
+        still = loaded_names(rec["out"])
+        if still is None:
+            fails.append(dict(rec, diff=["<syntax>"]))
+            continue
+        diff = [n for n in r["diff"] if n.startswith("<") or n in still]
+        if "<exception>" not in diff and "<stdout>" in diff and not any(not n.startswith("<") for n in diff):
+            # stdout differs but every surviving name is identical: the print itself was rewritten
+            if not r["after"]["exc"]:
+                diff = [n for n in diff if n != "<stdout>"]
+        if diff:
+            fails.append(dict(rec, diff=diff, before=r["before"], after=r.get("after")))
+    return fails, n_exec
